@@ -363,7 +363,7 @@ fn run(ctx: &mut Ctx) {
 
 fn finish(m: &Merged, tier: Tier) -> Finish {
     let mut f = Finish {
-        rule: "every text goes through Expr::parse and Rule::parse inside catch_unwind (process aborts are seen through the shard's exit status); oracle: Ok or Err, never a panic; the cases the statement names (out-of-range Int/hex/octal/binary/Decimal literal, out-of-range list index, unknown escape, \\u{} that is empty / > 10FFFF / a surrogate) must be Err. Texts: all sequences up to the length bound over a 31-symbol alphabet of token-class representatives and troublemakers (40-digit numerals in every numeric position, 0o8, lone quote, quote-backslash), numerals of magnitude 10^k (k <= 60) in 19 positions, every escape form x 137 following characters, generated valid texts with 1-3 mutations, random strings. Non-trivial: every (entry point, text) pair; distinct by that pair".into(),
+        rule: "every text goes through Expr::parse and Rule::parse inside catch_unwind (process aborts are seen through the shard's exit status); oracle: Ok or Err, never a panic; the cases the statement names (out-of-range Int/hex/octal/binary/Decimal literal, out-of-range list index, unknown escape, \\u{} that is empty / > 10FFFF / a surrogate) must be Err. Texts: all sequences up to the length bound over a 31-symbol alphabet of token-class representatives and troublemakers (40-digit numerals in every numeric position, 0o8, lone quote, quote-backslash), numerals of magnitude 10^k (k <= 60) in 19 positions, every escape form x 137 following characters, generated valid texts with 1-3 mutations, random strings, an escape soup (all arrangements of up to 3 and random arrangements of up to 12 pieces of escapes - backslash, u, braces, hex digits, complete and broken escapes - inside string literals, lists, maps and rule metadata). Non-trivial: every (entry point, text) pair; distinct by that pair".into(),
         exhaustive: false,
         exhaustive_part: format!("token sequences of length <= {} over the alphabet, the magnitude grid and the escape grid are enumerated completely", tier.of(3, 4)),
         ..Default::default()
